@@ -61,6 +61,12 @@ func wildcardBelowRoot(c *Ctx, r *Report, rule string) {
 		return
 	}
 	r.fn(fnDisplay(fn))
+	// the reconstruction may live in a helper of its own
+	caller := fn
+	if g := calleeWith(fn, func(f *ssa.Function) bool { return len(callsIn(f, "strings.Join")) > 0 }); g != nil {
+		fn = g
+		r.fn(fnDisplay(fn))
+	}
 	n := 0
 	for _, ci := range callsIn(fn, "strings.Join") {
 		join, ok := ci.(*ssa.Call)
@@ -77,6 +83,7 @@ func wildcardBelowRoot(c *Ctx, r *Report, rule string) {
 			}
 			return false
 		}
+		isCount = boundTo(caller, fn, isCount)
 		var bad []string
 		m := 0
 		allInstrs(fn, func(in ssa.Instruction) {
